@@ -40,6 +40,8 @@ type CorDef[T any] struct {
 
 	opCh     chan *CorOp[T]
 	resultCh chan T
+	// doneCh is closed when the Cor finishes: it wakes up senders blocked on a full opCh
+	doneCh chan struct{}
 
 	effect func()
 }
@@ -55,6 +57,7 @@ func CorNewGenerics[T any](effect func()) *CorDef[T] {
 		effect:    effect,
 		opCh:      make(chan *CorOp[T], 5),
 		resultCh:  make(chan T, 5),
+		doneCh:    make(chan struct{}),
 		isStarted: AtomBool{flag: 0},
 	}
 	return cor
@@ -163,8 +166,12 @@ func (corSelf *CorDef[T]) receive(cor *CorDef[T], in T) bool {
 		if corSelf.opCh != nil {
 			// fmt.Println(corSelf, "Wait for", "receive", cor, in)
 			verifPoint("cor.receive.beforeSend")
-			corSelf.opCh <- &CorOp[T]{cor: cor, val: in}
-			delivered = true
+			// doneCh: the target may finish while opCh is full (a nil doneCh never fires)
+			select {
+			case corSelf.opCh <- &CorOp[T]{cor: cor, val: in}:
+				delivered = true
+			case <-corSelf.doneCh:
+			}
 			// fmt.Println(corSelf, "Wait for", "receive", "done")
 		}
 	})
@@ -201,6 +208,9 @@ func (corSelf *CorDef[T]) IsStarted() bool {
 func (corSelf *CorDef[T]) close() {
 	corSelf.isClosed.Set(true)
 	verifPoint("cor.close.afterFlag")
+	if corSelf.doneCh != nil {
+		close(corSelf.doneCh)
+	}
 
 	corSelf.closedM.Lock()
 	if corSelf.resultCh != nil {
@@ -210,6 +220,19 @@ func (corSelf *CorDef[T]) close() {
 		close(corSelf.opCh)
 	}
 	corSelf.closedM.Unlock()
+
+	// Requests accepted but never served: answer them with the zero value (nobody else would)
+	if corSelf.opCh != nil {
+		for op := range corSelf.opCh {
+			if op != nil && op.cor != nil {
+				cor := op.cor
+				cor.doCloseSafe(func() {
+					var zero T
+					cor.resultCh <- zero
+				})
+			}
+		}
+	}
 }
 
 func (corSelf *CorDef[T]) doCloseSafe(fn func()) {
